@@ -379,6 +379,35 @@ def w_tls13_fragmented_flight():
     return expect_plain(impl, tlsgen, s)
 
 
+def w_tls12_fragmented_certificate():
+    import struct
+    impl, tlsgen, table, _ = env()
+    from ref import capgen, tls_ref
+    rng = random.Random(3)
+    c = tls_ref.Conn(rng, "TLS12", 0xC02F, table[0xC02F], sid_len=0, etm=False, extra_exts=())
+    c.send(False, 22, c.client_hello(), "ch")
+    c.send(True, 22, c.server_hello(), "sh")
+    cert = bytes([0x30] * 40) + b"\x01" + bytes([0x11] * 60)          # the continuation record starts with 0x01
+    msg = tls_ref.hs_msg(11, (3 + len(cert)).to_bytes(3, "big") + len(cert).to_bytes(3, "big") + cert)
+    c.send(True, 22, msg[:50], "hs")
+    c.send(True, 22, msg[50:], "hs")
+    c.send(True, 22, tls_ref.hs_msg(14, b""), "hs")
+    c.send(False, 22, tls_ref.hs_msg(16, struct.pack(">H", 48) + c.rb(48)), "hs")
+    c.send(False, 20, b"\x01", "ccs"); c._activate(c.c, False)
+    c.send(False, 22, tls_ref.hs_msg(20, c.rb(12)), "hs")
+    c.send(True, 20, b"\x01", "ccs"); c._activate(c.s, True)
+    c.send(True, 22, tls_ref.hs_msg(20, c.rb(12)), "hs")
+    for i in range(4):
+        c.app(bool(i % 2), b"hello %d" % i)
+    s = tlsgen.Scenario()
+    s.conn = c
+    s.client, s.server = tlsgen.endpoints(rng, False)
+    s.packets = capgen.tcp_packets([(srv, rec) for srv, rec, _, _ in c.wire], rng, s.client, s.server, schedule="records")
+    s.keylog = "\n".join(c.keylog_lines()) + "\n"
+    s.capture = capgen.to_pcapng(s.packets)
+    return expect_plain(impl, tlsgen, s)
+
+
 def w_short_cid_direction():
     impl, *_ = env()
     from ref import readback
@@ -435,6 +464,7 @@ W = {  # name: (property, commit, tag, function, one-line description)
     "foreign-retry-empty-dcid": ("C03", "994a2fd", "quic-empty-dcid-long-header", w_foreign_retry_empty_dcid, "a stray long-header datagram with DCID length 0 was handed to a bystander session with a zero-length connection ID (a Retry wiped its keys)"),
     "quic-hello-again-after-key-updates": ("C03", "2cf39e4", "quic-decryptor-selection-outside-try", w_hello_again_after_key_updates, "one crafted Initial datagram with a second ServerHello after two key updates: the re-created Application decryptor list was indexed with the stale key epoch and the IndexError aborted the run"),
     "tls13-fragmented-flight": ("C01", "1e9feed", "tls13-handshake-fragmented", w_tls13_fragmented_flight, "TLS 1.3 server flight fragmented across records inside a message (RFC 8446 5.1): the Finished was not recognised, the server direction never switched to its application keys and its application data was lost"),
+    "tls12-fragmented-certificate": ("C01", "101e670", "handshake-continuation-as-hello", w_tls12_fragmented_certificate, "TLS <= 1.2 Certificate fragmented across records (RFC 5246 6.2.1) with a continuation record starting with 0x01 or 0x02: taken for a ClientHello / ServerHello, session reset, nothing exported"),
     "legacy-nanosecond-pcap": ("C12", "7467fb4", "legacy-ns", w_legacy_nano, "legacy pcap with nanosecond magic: TypeError in the writer"),
 }
 
